@@ -375,9 +375,11 @@ func runC16(tier string, r *rng) {
 		c16HashPin(mk(100, sec), 50, 10*sec, sec, sfh)
 	}
 	// the very first tail selection, over an EMPTY store, with the request for the chosen tail header failing once
-	for _, sfh := range []uint64{0, 7} {
+	for _, sfh := range []uint64{0, 7, 60} { // 60: the configured tail IS the network head
 		c16EmptyInit(mk(60, sec), 30*sec, sec, sfh)
 	}
+	c16EmptyInit(mk(1, sec), 30*sec, sec, 0) // a chain that has only its first header: tail = head
+	c16EmptyInit(mk(3, sec), 30*sec, sec, 0)
 	k := 40
 	if tier == "thorough" {
 		k = 800
